@@ -136,12 +136,19 @@ CHECKS = {
        "left in force, in band, at the configured region-defined data rate, a join request on a default join frequency; fixed plans: a mask-driven data uplink uses an enabled channel of the uplink map "
        "whose kind (125/500 kHz) matches the bandwidth of the data rate; the join data rates of the regenerated table have the bandwidth of their channel kind; after the fall-back a usable channel "
        "always exists and the fall-back changes nothing when one existed; the search ends at the first draw that hits a usable channel (progress); conducted power <= min(127, the limit handed to "
-       "adjust_power) and <= EIRP - gain. PARTIAL: (1) the literal 'terminates for every random stream' is REFUTED for the rejection samplers (C09_termination_every_stream_refuted_*: known finding); "
-       "(2) the join-bias data paths and the lifting of dyn_ok through whole MAC histories are covered by the correspondence + oracle only. Tied to the code by MAC histories over board powers 0..255, "
+       "adjust_power) and <= EIRP - gain. Along whole histories (Proofs/TxHistory.v): C09_every_selection_path_legal -- EVERY path of select_tx_channel (dynamic data / join, fixed plan through the mask, "
+       "through the join-channel bookkeeping incl. the join bias, first data channel after a biased join) from every region state with the shape invariant yields a channel of the region (in band / on "
+       "the uplink map, index <= 71, bandwidth of the data rate = channel kind) at a region-defined data rate; C09_send_/C09_join_transmission_legal -- what send / join_otaa hand to the radio is such a "
+       "channel with the rf parameters of its data rate and power <= min(127, board limit); the invariant is kept by every MAC operation (C04) and no operation changes the region identity or the board "
+       "limit (handle_cmd_rid ... mac_handle_rx_dev); C09_nb_every_transmission_legal / C09_nb_fresh_device -- along EVERY event sequence of nb_device (requests, radio events with any answer and any received "
+       "bytes, timeouts, a fault at any call) from a fresh device of any region every frame handed to the radio is legal. PARTIAL: the literal 'terminates for every random stream' is REFUTED for the "
+       "rejection samplers (C09_termination_every_stream_refuted_*: known finding); 'enabled in the mask in force' is proved per transmission for the mask-driven paths (join channels are not governed by "
+       "the mask), the whole-history theorem carries band / map / data rate / power. Tied to the code by MAC histories over board powers 0..255, "
        "gains -128..127, join bias, CFLists, LinkADRReq blocks, NewChannelReq/DlChannelReq, set_datarate, ADR back-off, with a snapshot around every transmission and all 64 outcomes of the first channel draw "
-       "from reached states; every TX judged by band / channel-map / data-rate / power rules written from RP002.",
+       "from reached states; every TX judged by band / channel-map / data-rate / power rules written from RP002; both front-ends run model against code on event histories (join bias, faults, "
+       "hostile frames) with every handed-over frame judged by the same rules.",
   note=COMMON_NOTE + "Region tables (bands, channel maps, data rates, join data rates, EIRP) are regenerated from /repo by tools/rs2v/regiontables.py. The oracle reads the channel plan / mask from the hook's snapshot.",
-  tech="machine-checked proof in Coq (plan invariant + selection legality + fall-back + power bound; termination on every stream refuted by a witness) + translator-regenerated tables + MAC-history correspondence with exhaustive first-draw enumeration + RP002 oracle", ref="6 C09"),
+  tech="machine-checked proof in Coq (plan invariant + legality of every selection path + fall-back + power bound, lifted to every nb_device event sequence; termination on every stream refuted by a witness) + translator-regenerated tables + MAC-history and front-end correspondence with exhaustive first-draw enumeration + RP002 oracle", ref="6 C09"),
  "C10": dict(
   text="Coq theorems (Props/C10.v): the RX1 data-rate function of each of the 9 regions equals the RP002 rule (EU/AS/IN: max(dr-off,0); US915: min(13,max(8,10+dr-off)); AU915: "
        "min(13,max(8,8+dr-off))) on the whole scope where RP002 defines it (sweep of all 9x16x8 inputs of the regenerated tables, lifted by forallb_forall) and is TOTAL (no panic, "
